@@ -3,6 +3,7 @@
   standalone views agree.  Property theorems only; helper lemmas live in Rtp/Proofs/Wire*.lean.
 -/
 import Rtp.Proofs.WireCanonical
+import Rtp.Proofs.WireViewPred
 import Rtp.Pred.C03
 namespace Rtp.Props.C03
 open Rtp Rtp.Model Rtp.Spec.Wire Rtp.Proofs.Wire
@@ -158,6 +159,64 @@ def exCanon : Wire :=
   { version := 2, marker := true, pt := 111, csrc := [1, 2],
     ext := some (.twoByte [.elem 1 [], .elem 200 [1, 2, 3], .elem 7 [9]]), payload := [5, 6], pad := some [0, 0, 0] }
 example : exCanon.canonical = true := by decide
+
+/-! ### sentence (3): the standalone views decode the same block to the same ids and values and
+    re-serialise it byte-identically -/
+
+/-- OneByteHeaderExtension on any well-formed one-byte block (pads anywhere, reserved id allowed:
+    `GetIDs` stops there as RFC 8285 asks, `Get` of a listed id returns the first such element,
+    `Get` of an id that stands nowhere returns nil), for any queries and destination contents -/
+theorem c03_view_onebyte (items : List Item) (qs : List UInt8) (fill : UInt8)
+    (hw : (ExtBlock.oneByte items).WF = true) :
+    Pred.C03.view { kind := .oneByte, block := some (.oneByte items), bytes := (ExtBlock.oneByte items).encode,
+                    queries := qs, fill := fill }
+      (Pred.C03.modelView { kind := .oneByte, block := some (.oneByte items),
+                            bytes := (ExtBlock.oneByte items).encode, queries := qs, fill := fill }) = true :=
+  view_onebyte items qs fill hw
+
+/-- TwoByteHeaderExtension on any well-formed two-byte block -/
+theorem c03_view_twobyte (items : List Item) (qs : List UInt8) (fill : UInt8)
+    (hw : (ExtBlock.twoByte items).WF = true) :
+    Pred.C03.view { kind := .twoByte, block := some (.twoByte items), bytes := (ExtBlock.twoByte items).encode,
+                    queries := qs, fill := fill }
+      (Pred.C03.modelView { kind := .twoByte, block := some (.twoByte items),
+                            bytes := (ExtBlock.twoByte items).encode, queries := qs, fill := fill }) = true :=
+  view_twobyte items qs fill hw
+
+/-- RawExtension on any RFC 3550 block: one id 0 whose value is the whole block *including* its
+    4-byte header (API quirk recorded in DESIGN §7, outside the property's wording) -/
+theorem c03_view_raw (p : UInt16) (ws : Bytes) (qs : List UInt8) (fill : UInt8)
+    (hw : (ExtBlock.legacy p ws).WF = true) :
+    Pred.C03.view { kind := .raw, block := some (.legacy p ws), bytes := (ExtBlock.legacy p ws).encode,
+                    queries := qs, fill := fill }
+      (Pred.C03.modelView { kind := .raw, block := some (.legacy p ws),
+                            bytes := (ExtBlock.legacy p ws).encode, queries := qs, fill := fill }) = true :=
+  view_raw p ws qs fill hw
+
+/-- spelled out for the two-byte view (no reserved id there, so `Get` is first-match lookup for
+    every id) -/
+theorem c03_view_twobyte_spec (items : List Item) (hw : (ExtBlock.twoByte items).WF = true) :
+    let b := ExtBlock.twoByte items
+    viewUnmarshal .twoByte b.encode = .ok b.encode.length ∧
+    viewGetIDs .twoByte b.encode = .ok b.ids ∧
+    (∀ q, viewGet .twoByte b.encode q = .ok (b.lookup q)) ∧
+    viewMarshal b.encode = b.encode ∧ viewMarshalSize b.encode = b.encode.length := by
+  have hok : items.all Item.ok2 = true := by
+    have := blockOk_of_WF _ hw
+    simp only [blockOk, Bool.and_eq_true] at this; exact this.1
+  have h4 := encode_length_pos (.twoByte items)
+  have : ¬ (ExtBlock.twoByte items).encode.length < 4 := by omega
+  refine ⟨viewUnmarshal_encode _ _ rfl hw, ?_, ?_, rfl, rfl⟩
+  · simp only [viewGetIDs, this, ↓reduceIte, drop4_encode, ExtBlock.body, twoByteIDs_body items _ hok]; rfl
+  · intro q
+    simp only [viewGet, drop4_encode, ExtBlock.body, twoByteGet_body items _ q hok]; rfl
+
+/-- non-vacuity for the views: a one-byte block with interior pads and a reserved id followed by a
+    further element; a two-byte block with a zero-length element; a legacy block -/
+example : (ExtBlock.oneByte [.pad, .elem 3 [1, 2], .pad, .elem 15 [9], .elem 4 [7]]).WF = true ∧
+    (ExtBlock.oneByte [.pad, .elem 3 [1, 2], .pad, .elem 15 [9], .elem 4 [7]]).ids = [3] ∧
+    (ExtBlock.twoByte [.elem 200 [], .pad, .pad, .elem 1 [1, 2, 3]]).WF = true ∧
+    (ExtBlock.legacy 0x1234 [1, 2, 3, 4]).WF = true := by decide
 
 /-! ### the known finding `c03_reserved_id` (DESIGN §7 row 2) -/
 
